@@ -152,7 +152,7 @@ static const size_t RING = 400;
 static const char *kPointNames[] = {"?", "mutex_lock", "mutex_trylock", "mutex_unlock", "mutex_init", "mutex_destroy",
     "cond_wait", "cond_timedwait", "cond_signal", "cond_broadcast", "cond_init", "cond_destroy", "cond_wake",
     "thread_create", "thread_join", "thread_detach", "thread_start", "thread_exit", "once", "atomic", "clock", "sleep",
-    "yield", "gate_wait", "gate_notify", "access", "harness", "fault"};
+    "yield", "gate_wait", "gate_notify", "access", "harness", "fault", "clock_read"};
 const char *point_kind_name(int k) { return (k > 0 && k < PK__COUNT) ? kPointNames[k] : "?"; }
 
 bool active() { return tl_self != nullptr && G.run_active; }
@@ -988,7 +988,9 @@ int __wrap_pthread_setname_np(pthread_t t, const char *name) {
 int __wrap_clock_gettime(clockid_t id, struct timespec *ts) {
     if (!sim::active()) return __real_clock_gettime(id, ts);
     sim::point(PK_CLOCK, nullptr, (int64_t)id);
-    uint64_t v = (id == CLOCK_REALTIME || id == CLOCK_REALTIME_COARSE) ? sim::now_real() : sim::now_boot();
+    bool rt = (id == CLOCK_REALTIME || id == CLOCK_REALTIME_COARSE);
+    uint64_t v = rt ? sim::now_real() : sim::now_boot();
+    if (rt) log_event(PK_CLOCK_READ, nullptr, (int64_t)v); // the value actually returned (after any preemption at the point above)
     ts->tv_sec = (time_t)(v / 1000000000ull);
     ts->tv_nsec = (long)(v % 1000000000ull);
     return 0;
